@@ -126,6 +126,11 @@ def run_case(ctx, seed, k=0):
             realisations.append((f"programmatic:{mode}", build_programmatic(m, mode)))
         except Exception as e:  # noqa: BLE001
             ctx.violation(f"programmatic-construction-fails:{type(e).__name__}", {"mode": mode, "exception": repr(e)[:300], "sdl": sdl[:400]}, case)
+    if seed % 3 == 0:
+        try:
+            realisations.append(("programmatic:literal:subclassed", build_programmatic(m, 'literal', subclassed=True)))
+        except Exception as e:  # noqa: BLE001
+            ctx.violation(f"programmatic-construction-fails:{type(e).__name__}", {"mode": "subclassed", "exception": repr(e)[:300], "sdl": sdl[:400]}, case)
     for how, S in realisations:
         ctx.case()
         check_schema(ctx, S, m, how, {**case, "how": how}, canon_model)
